@@ -41,6 +41,7 @@ def t_struct(chk, ix):
     rules_parser.check_tags_consumed(chk, ix, "P6")
     rules_parser.check_docstring_protocol(chk, ix)
     rules_parser.check_cell_roundtrip(chk, ix)
+    rules_parser.check_table_render_roundtrip(chk, ix)
     rules_parser.check_tag_line(chk, ix, chk.tier)
 
 
@@ -53,6 +54,6 @@ def run(chk, ix, tier):
     chk.require_instances("P5", 3)
     chk.require_instances("P6", 5)
     chk.require_instances("P7", 2)
-    chk.require_instances("P8", 6)
+    chk.require_instances("P8", 10)
     chk.require_instances("P9", 11)
     chk.require_instances("P10", 4)
